@@ -22,6 +22,8 @@
   static inline T *V##__back(const V *v) { return &v->d[v->n - 1]; } \
   static inline T *V##__begin(const V *v) { return v->d; } \
   static inline T *V##__end(const V *v) { return v->d + v->n; } \
+  static inline T *V##__rbegin(const V *v) { return v->d + v->n; } \
+  static inline T *V##__rend(const V *v) { return v->d; } \
   static inline T *V##__data(const V *v) { return v->d; } \
   static inline void V##__clear(V *v) { v->n = 0; } \
   static inline void V##__pop_back(V *v) { __CPROVER_assert(v->n > 0, "pop_back on an empty vector (undefined behaviour)"); v->n = v->n - 1; }
